@@ -69,3 +69,9 @@ claim("C19", "other",
       "Decides the structural conditions of truthful negotiation on every path: Client only after type==VERSION and version==3 on checked decodes with the writer closed on failure; ext written only from the VERSION packet; fsync only when advertised; INIT answered with version 3 and the configured list; all-or-nothing replacement of the list from a fresh slice of validated elements; advertised ⊆ decoded names, client encoder names ⊆ decoded names; unknown extended requests keep the session and get op-unsupported in both servers.",
       "Third-party peers are out of scope; extension data strings beyond table equality are not decided.",
       "DESIGN.md section 4, C19")
+
+claim("C05", "other",
+      "table extraction (request type -> package-os call with argument provenance; open-flag tables both directions; error-translation decision lists) evaluated exhaustively over finite oracle tables",
+      "Decides the adapter wiring that is necessary for os-like behaviour: per request type the exact set of file-system calls with each path passed through toLocalPath once (symlink target verbatim: known finding F11), client/server open-flag tables composing to the identity for all 48 os flag combinations, error categories preserved for 44 standard error shapes (bare and in os's own wrappers), toLocalPath joining only relative paths. It decides the mapping, not sequences over file-system states; client composites (MkdirAll, RemoveAll, Glob, Walk) are not decided.",
+      "Axioms for os.IsNotExist/os.IsPermission/errors.Is/errors.As on the listed shapes; oracle tables in DESIGN.md Appendix A.",
+      "DESIGN.md section 4, C05")
